@@ -379,6 +379,15 @@ def run_case(case, ctx):
             ok, v = ctx.call(api, c2, lm, x + (EOS,))
             if ok:
                 ctx.check(api, close2(v, wx / Z, 4 * rt, 1e-10), f"{name}.__call__/chain-rule", c2, {"have": v, "want": wx / Z})
+            # probability of an extension given a context (p_next_seq): P(c.e) / P(c) for every split of x
+            for k in range(len(x)):
+                c, e = x[:k], x[k:]
+                pc = P(c)
+                if pc > 0 and pc >= 1e-9 and len(x) <= 3:
+                    ok, v = ctx.call(api, dict(c2, split=k), lm.p_next_seq, c, e)
+                    if ok:
+                        ctx.check(api, close2(v, P(x) / pc, 4 * rt, 1e-10), f"{name}.p_next_seq/value", dict(c2, split=k),
+                                  {"context": list(c), "extension": list(e), "have": v, "want": float(P(x) / pc)})
     # unnormalised next-token weights = parser weight of context + token (judged by the oracle's prefix weights)
     if "EarleyLM" in lms:
         model = lms["EarleyLM"].model
